@@ -87,6 +87,7 @@ func ProfileFor(prop string) *Profile {
 		p.Reloads = true
 		p.W = scale(p.W, map[string]int{OpReload: 10, OpBound: 25, OpUpdAsk: 25, OpBindAsk: 12})
 	case "C03":
+		p.Scenario = 250
 		p.Gang = 400
 		p.W = scale(p.W, map[string]int{OpDecom: 16, OpRmApp: 25, OpRelease: 70, OpDupConfirm: 15, OpDropConfirm: 10, OpReconfirm: 12, OpFirePH: 14, OpUpdAsk: 25})
 	case "C04":
@@ -99,6 +100,7 @@ func ProfileFor(prop string) *Profile {
 		p.W = scale(p.W, map[string]int{OpReload: 14, OpAddApp: 60, OpRmApp: 20})
 		p.MaxApps = 7
 	case "C06":
+		p.Scenario = 300
 		p.Gang = 850
 		p.W = scale(p.W, map[string]int{OpFirePH: 22, OpFireState: 14, OpDecom: 14, OpRelease: 60, OpDupConfirm: 14, OpReconfirm: 10, OpRmApp: 16, OpBound: 0, OpBindAsk: 0, OpUpdAsk: 0})
 	case "C09":
@@ -109,6 +111,7 @@ func ProfileFor(prop string) *Profile {
 		p.W = scale(p.W, map[string]int{OpDrain: 16, OpDecom: 16, OpUpdNode: 25, OpRmApp: 20, OpUpdAsk: 25})
 		p.Cfg.Limits, p.Cfg.MaxApps = 100, 100
 	case "C10":
+		p.Scenario = 350
 		p.Restart = 600
 		p.Gang = 350
 		p.W = scale(p.W, map[string]int{OpFireState: 40, OpFirePH: 16, OpRelease: 90, OpRmApp: 20, OpAddApp: 60})
@@ -175,6 +178,10 @@ func RunCase(prop string, seed uint64, replayDir string, cmdLog *os.File) (res *
 			e.Do(op)
 		}
 	}
+	if prof.Scenario > 0 && r.Chance(prof.Scenario) {
+		e.scenarioInterruptedSwap(g, r)
+		e.obs("scenario.interrupted_swap", 1)
+	}
 	steps := r.Range(prof.Steps[0], prof.Steps[1])
 	for i := 0; i < steps && e.Inconclusive == "" && !e.stopNow(); i++ {
 		op := g.Next()
@@ -224,24 +231,32 @@ func RunCase(prop string, seed uint64, replayDir string, cmdLog *os.File) (res *
 // closing phase: deliver everything, remove everything, check that nothing leaks.
 func (e *Engine) closing(g *Gen) {
 	drain := func() {
-		for i := 0; i < 200 && len(e.C.S.Confirms()) > 0 && e.Inconclusive == ""; i++ {
+		for i := 0; i < 200 && len(e.C.S.Confirms()) > 0 && e.Inconclusive == "" && !e.stopNow(); i++ {
 			e.Do(&Op{Kind: OpConfirm, Idx: 0})
 		}
 	}
 	drain()
 	for _, id := range g.liveApps() {
-		e.Do(&Op{Kind: OpRmApp, App: id})
+		if !e.stopNow() {
+			e.Do(&Op{Kind: OpRmApp, App: id})
+		}
 	}
 	drain()
 	for _, k := range g.foreignKeys() {
-		e.Do(&Op{Kind: OpForeignRm, Key: k})
+		if !e.stopNow() {
+			e.Do(&Op{Kind: OpForeignRm, Key: k})
+		}
 	}
 	for _, n := range g.liveNodes() {
-		e.Do(&Op{Kind: OpDecom, Node: n})
+		if !e.stopNow() {
+			e.Do(&Op{Kind: OpDecom, Node: n})
+		}
 	}
 	drain()
-	e.Do(&Op{Kind: OpCleanup})
-	if e.Inconclusive != "" {
+	if !e.stopNow() {
+		e.Do(&Op{Kind: OpCleanup})
+	}
+	if e.Inconclusive != "" || e.stopNow() {
 		return
 	}
 	e.obs("closing_phases", 1)
@@ -329,4 +344,83 @@ func writeReplay(dir, prop string, seed uint64, rf *ReplayFile) string {
 		return ""
 	}
 	return path
+}
+
+
+// scenarioInterruptedSwap is a directed prefix: a gang application with 2-3 placeholders, one swap completed, one swap
+// in flight, then a seeded permutation of the interruptions the properties name (release of the last real allocation,
+// confirmation of the in-flight swap, completing timer, placeholder timer, late confirmations). The rest of the
+// history is random as usual.
+func (e *Engine) scenarioInterruptedSwap(g *Gen, r *Rng) {
+	if len(g.M.FifoLeaves) == 0 {
+		return
+	}
+	g.nodeN++
+	big := fmt.Sprintf("n%d", g.nodeN)
+	if !e.Do(&Op{Kind: OpAddNode, Node: big, Res: map[string]int64{"memory": 20, "vcore": 20}}) {
+		return
+	}
+	g.appN++
+	id := fmt.Sprintf("app%d", g.appN)
+	count := r.Range(2, 3)
+	unit := map[string]int64{"memory": 1, "vcore": 1}
+	total := map[string]int64{"memory": int64(count), "vcore": int64(count)}
+	style := []string{"Soft", "Hard"}[r.Intn(2)]
+	ga := &gApp{ID: id, Queue: r.Pick(g.M.FifoLeaves), User: r.Pick(g.M.Users), Gang: true, Style: style, TGs: []*tgInfo{{Name: "tg1", Count: count, Res: unit, PHSent: count}}}
+	g.apps[id] = ga
+	if !e.Do(&Op{Kind: OpAddApp, App: id, Queue: ga.Queue, User: ga.User, PHAsk: total, GangStyle: style}) {
+		return
+	}
+	for i := 0; i < count; i++ {
+		e.Do(&Op{Kind: OpAsk, App: id, Key: g.newKey(id), Res: map[string]int64{"memory": 1, "vcore": 1}, Placeholder: true, TaskGroup: "tg1"})
+	}
+	e.Do(&Op{Kind: OpSched, N: count + 2})
+	r0 := g.newKey(id)
+	e.Do(&Op{Kind: OpAsk, App: id, Key: r0, Res: map[string]int64{"memory": 1, "vcore": 1}, TaskGroup: "tg1"})
+	e.Do(&Op{Kind: OpSched, N: 2})
+	for i := 0; i < 4 && len(e.C.S.Confirms()) > 0; i++ {
+		e.Do(&Op{Kind: OpConfirm, Idx: 0})
+	}
+	r1 := g.newKey(id)
+	e.Do(&Op{Kind: OpAsk, App: id, Key: r1, Res: map[string]int64{"memory": 1, "vcore": 1}, TaskGroup: "tg1"})
+	e.Do(&Op{Kind: OpSched, N: 2})
+	ga.TGs[0].RealSent = 2
+	// interruptions in a seeded order, each used with probability 2/3
+	acts := []func(){
+		func() { e.Do(&Op{Kind: OpRelease, App: id, Key: r0}) },
+		func() {
+			if len(e.C.S.Confirms()) > 0 {
+				e.Do(&Op{Kind: OpConfirm, Idx: 0})
+			}
+		},
+		func() { e.Do(&Op{Kind: OpFireState, App: id}) },
+		func() { e.Do(&Op{Kind: OpFirePH, App: id}) },
+		func() {
+			for i := 0; i < 6 && len(e.C.S.Confirms()) > 0 && !e.stopNow(); i++ {
+				e.Do(&Op{Kind: OpConfirm, Idx: 0})
+			}
+		},
+		func() { e.Do(&Op{Kind: OpSched, N: 2}) },
+		func() { e.Do(&Op{Kind: OpFireState, App: id}) },
+	}
+	order := make([]int, len(acts))
+	for i := range order {
+		order[i] = i
+	}
+	for i := len(order) - 1; i > 0; i-- {
+		j := r.Intn(i + 1)
+		order[i], order[j] = order[j], order[i]
+	}
+	// the documented dangerous order first in half of the cases
+	if r.Chance(500) {
+		order = []int{0, 1, 2, 4, 6, 5, 3}
+	}
+	for _, i := range order {
+		if e.stopNow() || e.Inconclusive != "" {
+			return
+		}
+		if r.Chance(800) {
+			acts[i]()
+		}
+	}
 }
